@@ -260,7 +260,9 @@ func Run(r *rt.Run) error {
 				_ = os.WriteFile(filepath.Join(r.OutDir, name), []byte(o.HungDump+o.LeakDump), 0o644)
 			}
 		}
-		t.Distinct(sc.key())
+		if sc.Stall != "" || sc.Fail != "" || sc.Racing > 0 {
+			t.Distinct(sc.key()) // non-trivial: a backlog is held somewhere, a node fails, or a writer races with the stop
+		}
 	}
 	sigs := []string{}
 	for s, c := range cnt.bySig {
@@ -277,7 +279,7 @@ func Run(r *rt.Run) error {
 	r.Extra["stop_returned_with_gate_closed"] = cnt.early
 	r.Extra["leak_signatures"] = strsAny(sigs)
 	r.Extra["driver_wall_s"] = int(time.Since(t0).Seconds())
-	r.Finish("real stream tasks (influxDBOut buffer 1/3/default, chain, alert with own handler, log, httpPost, kapacitorLoopback, fork, union, join) stopped with StopTask/DeleteTask/TaskMaster.Close/Drain+StopTasks while a gate (sink, node start, node after its k-th message) holds the backlog at a chosen place, 5..2400 points in flight (edge capacity 1000), with and without a failing node; each scenario attempted several times; distinct by scenario", false)
+	r.Finish("real stream tasks (influxDBOut buffer 1/3/default, chain, alert with own handler, log, httpPost, kapacitorLoopback, fork, union, join) stopped with StopTask/DeleteTask/TaskMaster.Close/Drain+StopTasks while a gate (sink, node start, node after its k-th message) holds the backlog at a chosen place, 5..2400 points in flight (edge capacity 1000), with and without a failing node; each scenario attempted several times (Go select is random); non-trivial = scenario with a held backlog, a failing node or a racing writer, distinct by scenario", false)
 	return nil
 }
 
